@@ -129,6 +129,7 @@ def check(ctx):
     model = Model(ctx)
     _recip(rep, model)
     _cross_site(rep, model)
+    _preprocess_eval(rep, model)
     _normalisation(rep, model)
     _wiring(rep, model)
     _planner(rep, model)
@@ -417,14 +418,7 @@ def _cross_site(rep, model):
             else:
                 rep.holds('R2', tag + '[unshifted,%s]' % parity,
                           'phase exp(imag * rmin * s * k)')
-        # shifted arm: alternating sign
-        src = ast.unparse(helper)
-        if 'factor[1::2] = -1' in src and 'np.ones' in src:
-            rep.holds('R2', tag + '[shifted]', '(-1)^k = exp(i pi k), '
-                      'rmin * s = -pi')
-        else:
-            rep.violation('R2', 'dft_preprocess_data', 'shifted axes are not'
-                          ' multiplied by (-1)^k', FT, helper.lineno)
+        # the shifted arm and the per-axis assembly are evaluated (R2b)
     except Undecided as e:
         rep.undecided('R2', tag, str(e), FT, helper.lineno)
     except PyRaise as e:
@@ -447,6 +441,116 @@ def _cross_site(rep, model):
             rep.violation('R2', name, 'sign convention %r differs from '
                           "imag = -1j for '-', 1j for '+'" % (pairs,), FT,
                           f2.lineno)
+
+
+# --------------------------------------------------------------------------
+# R2b: dft_preprocess_data evaluated on small complex arrays for every
+# pattern of shifted / unshifted axes (equal and different axis lengths):
+# the 1-d factor handed to the tensor multiplication for axis k is (-1)^j on
+# a shifted axis and exp(-imag * pi * (1 - 1/N) * j) on an unshifted one.
+def _preprocess_eval(rep, model):
+    import numpy as _np
+    from ..spacemodel import SMHooks, SMInterp, IU
+    from ..namodel import NA, objarr
+    from ..ratfun import satom
+    from .. import posalg as PA
+    fn = model.ctx.func(FT, 'dft_preprocess_data')
+    if fn is None:
+        raise AnalysisError('anchor vanished: dft_preprocess_data')
+
+    class H(SMHooks):
+        def __init__(self):
+            SMHooks.__init__(self)
+            self.calls = []
+
+        def np_func(self, I, name):
+            if name == 'pi':
+                return Rat.var('pi')
+            return SMHooks.np_func(self, I, name)
+
+        def on_call(self, interp, f, args, kwargs, node):
+            if isinstance(f, Func) and f.name == 'fast_1d_tensor_mult':
+                self.calls.append((args, kwargs))
+                return kwargs.get('out', args[0])
+            if isinstance(f, Func) and \
+                    f.name == 'normalized_scalar_param_list':
+                p, n = args[0], kwargs.get('length', args[1] if len(
+                    args) > 1 else None)
+                conv = kwargs.get('param_conv')
+                vals = list(p) if isinstance(p, (list, tuple)) else [p] * n
+                if len(vals) != n:
+                    raise PyRaise('ValueError')
+                return [bool(v) for v in vals] if conv is not None else vals
+            return SMHooks.on_call(self, interp, f, args, kwargs, node)
+
+    def sym(shape):
+        a = _np.empty(shape, dtype=object)
+        for idx in _np.ndindex(*shape):
+            t = ''.join(map(str, idx))
+            a[idx] = Rat.var('a' + t) + IU * Rat.var('b' + t)
+        return NA(a, 'complex128')
+    n = 0
+    for shape in ((2, 2), (3, 3), (2, 3), (3, 3, 2)):
+        for shifts in itertools.product((True, False), repeat=len(shape)):
+            for sign in ('-', '+'):
+                n += 1
+                tag = 'dft_preprocess_data[shape=%s,shift=%s,sign=%s]' % (
+                    'x'.join(map(str, shape)), list(shifts), sign)
+                try:
+                    h = H()
+                    I = SMInterp(model, {}, h)
+                    I.call_func(Func(fn, I.env_of(FT), None), [sym(shape)],
+                                {'shift': list(shifts), 'sign': sign})
+                    if len(h.calls) != 1:
+                        raise Undecided('%d tensor multiplications'
+                                        % len(h.calls))
+                    args, kw = h.calls[0]
+                    arrs = args[1] if len(args) > 1 else kw['onedim_arrs']
+                    axes = kw.get('axes', args[2] if len(args) > 2 else None)
+                    axes = list(range(len(shape))) if axes is None else \
+                        [int(to_rat(a).constant()) if not isinstance(a, int)
+                         else a for a in axes]
+                    probs = []
+                    if sorted(axes) != list(range(len(shape))) or \
+                            len(arrs) != len(axes):
+                        probs.append('axes %r with %d factor arrays'
+                                     % (axes, len(arrs)))
+                    imag = -IU if sign == '-' else IU
+                    for ax, arr in zip(axes, arrs):
+                        N = shape[ax]
+                        vals = [PA.ired(to_rat(v)) for v in arr.a.ravel()]
+                        if len(vals) != N:
+                            probs.append('axis %d: factor of length %d'
+                                         % (ax, len(vals)))
+                            continue
+                        for j in range(N):
+                            if shifts[ax]:
+                                w = Rat.const((-1) ** j)
+                            elif j == 0:
+                                w = Rat.const(1)
+                            else:
+                                arg = PA.ired(-imag * Rat.var('pi') * (
+                                    1 - Rat.const(Fr(1, N))) * j)
+                                w = Rat.var(satom('exp', arg))
+                            if not (vals[j] - w).is_zero():
+                                probs.append(
+                                    'axis %d (%s): factor[%d] is %r, '
+                                    'expected %r' % (
+                                        ax, 'shifted' if shifts[ax]
+                                        else 'unshifted', j, vals[j], w))
+                                break
+                    if probs:
+                        rep.violation('R2b', tag, '; '.join(probs[:2]), FT,
+                                      fn.lineno)
+                    else:
+                        rep.holds('R2b', tag, 'per-axis factors (-1)^j / '
+                                  'exp(-imag pi (1 - 1/N) j)')
+                except Undecided as e:
+                    rep.undecided('R2b', tag, str(e), FT, fn.lineno)
+                except PyRaise as e:
+                    rep.violation('R2b', tag, 'raises %s' % e.name, FT,
+                                  fn.lineno)
+    rep.floor('R2b', 'pre-processing evaluations', n, 40)
 
 
 # --------------------------------------------------------------------------
